@@ -444,3 +444,37 @@ Example go_format_base_ex :
   go_format_base (f_of_Z (-255)) (Some (f_of_Z 2)) = LOk "-11111111" /\
   (exists t, go_format_base (f_of_Z 255) (Some (f_of_Z 37)) = LErr t).
 Proof. repeat split; try (vm_compute; reflexivity). eexists. vm_compute. reflexivity. Qed.
+
+(* ------------------------------------------------------------------------------------ *)
+(* 5. round_half_even: NOT proved.  The model (validated on 8,000 Round vectors) shows    *)
+(*    that the property still fails at the predecessor of 0.5; the witnesses below are    *)
+(*    computed on the model and agree with the Go code (harness/vectors/numbers).         *)
+(* ------------------------------------------------------------------------------------ *)
+Definition dec (s : string) : f64 := match parse_float s with PFOk x => x | _ => S754_nan end.
+
+(* floor(x + 0.5) rounds up to 1 for the predecessor of 0.5 (x + 0.5 is a tie that rounds to 1.0) *)
+Example round_defect_pred_half :
+  go_round (dec "0.49999999999999994") None = dec "1" /\
+  go_round (dec "-0.49999999999999994") None = dec "-1" /\
+  go_format_base (dec "0.49999999999999994") None = LOk "1"%string.
+Proof. repeat split; vm_compute; reflexivity. Qed.
+
+(* floor(intermed + 0.5) is inexact for odd intermed in [2^52, 2^53): on the original tree
+   $round(450359962737049.7, 1) was 450359962737049.8; repaired in /repo (commit 112215d,
+   "already an integer" branch, mirrored in the model) *)
+Example round_above_2_52_repaired :
+  go_round (dec "450359962737049.7") (Some 1) = dec "450359962737049.7".
+Proof. vm_compute. reflexivity. Qed.
+
+(* int64(float64) of a value beyond 2^63 is the amd64 "integer indefinite" value *)
+Example format_base_defect_overflow :
+  go_format_base (dec "1e19") None = LOk "-9223372036854775808"%string.
+Proof. vm_compute. reflexivity. Qed.
+
+(* ties of the shortest decimal value do go to even, at positive and negative precision *)
+Example round_ties_to_even :
+  go_round (dec "2.5") None = dec "2" /\ go_round (dec "3.5") None = dec "4" /\
+  go_round (dec "-2.5") None = dec "-2" /\ go_round (dec "1.005") (Some 2) = dec "1" /\
+  go_round (dec "2.675") (Some 2) = dec "2.68" /\ go_round (dec "25") (Some (-1)) = dec "20" /\
+  go_round (dec "35") (Some (-1)) = dec "40".
+Proof. repeat split; vm_compute; reflexivity. Qed.
